@@ -273,5 +273,5 @@ def random_oracle(case, stats):
 
 PARTS = [
     EnumPart("exhaustive-small", enum_cases, oracle, exhaustive=lambda tier: tier == "thorough", chunk=400),
-    HypPart("random", lambda tier: random_case(), random_oracle, {"quick": 2500, "thorough": 25000}),
+    HypPart("random", lambda tier: random_case(), random_oracle, {"quick": 5000, "thorough": 40000}),
 ]
